@@ -1,14 +1,176 @@
 ------------------------------- MODULE MiOs -------------------------------
-(* placeholder OS model: consumes OS events (extended below in later revisions) *)
+(***************************************************************************
+  Model of the operating-system side of the allocator, reconstructed from the OS-call events
+  of the shim (mmap / munmap / mprotect / madvise, each with its result) and the virtual clock.
+
+  State: the set of mapped segments with protection and birth round; per 64 KiB unit whether it is
+  "dirty" (written through a live block since it was last given back by a purge/unmap event);
+  the C18 candidate set (dirty units unused continuously since T0); refused ranges (fault plans).
+
+  The properties decided here:
+    C13 DestructiveAvoidsLive  - no madvise(DONTNEED|FREE), mprotect(NONE), munmap or fixed re-map hits a live block
+    C07/C13 LiveAccessible     - a returned block lies in mapped read/write memory
+    C11 AllReleased / DirtyAllReleased / NoCreep  at quiescence points
+    C18 NeverPurgesWhenDisabled / ImmediateWhenZero / TimelyPurge
+  Units are 64 KiB (= segment slice = commit granularity): unit(a) = a \div 65536 = hi*16 + lo \div 65536.
+ ***************************************************************************)
 EXTENDS MiAddr
-VARIABLES now
-osVars == <<now>>
-OsInit == now = 0
-OsOnCall(ev) == UNCHANGED osVars
-OsOnRet(ev) == UNCHANGED osVars
-OsEvent(ev) == UNCHANGED osVars
-OsClock(ev) == now' = ev.now
-OsCfg(ev) == UNCHANGED osVars
-OsMark(ev) == UNCHANGED osVars
-OsReset == UNCHANGED osVars
+
+CONSTANTS RelaxedOs      \* same role as Relaxed in MiApi (kept separate so MiOs can be used alone)
+
+VARIABLES
+  maps,      \* set of [a, e, prot, born]
+  now,       \* virtual clock (ms)
+  round,     \* workload round (for C11), starts at 1
+  dirtyU,    \* set of units written through a live block and not yet purged / unmapped since
+  cand,      \* C18: dirty units unused continuously since T0 (or {"none"} before T0)  -- set of units
+  t0set,     \* BOOLEAN: T0 has been marked
+  lastInuse, \* C18 delay 0: dirty units in use at the previous areas snapshot
+  refusedU,  \* units of ranges whose purge/unmap the fault plan refused
+  prevQ,     \* [mapped, resident] of the previous quiescence point (or <<0,0>>)
+  oscfg,     \* [shim, purge_delay, ...] from the cfg event
+  ostep      \* position, for diagnostics only
+osVars == <<maps, now, round, dirtyU, cand, t0set, lastInuse, refusedU, prevQ, oscfg, ostep>>
+
+OG(name, detail, cond) == IF cond THEN TRUE ELSE (RelaxedOs /\ PrintT(<<"GUARDFAIL", name, ostep + 1, detail>>))
+
+U64K == 65536
+UnitOf(a) == a[1] * 16 + (a[2] \div U64K)
+\* units intersecting [a, e)
+UnitsCovering(a, e) == IF LeA(e, a) THEN {} ELSE
+                         UnitOf(a) .. (IF e[2] % U64K = 0 THEN UnitOf(e) - 1 ELSE UnitOf(e))
+\* units completely inside [a, e)
+UnitsInside(a, e) == (IF a[2] % U64K = 0 THEN UnitOf(a) ELSE UnitOf(a) + 1) .. (UnitOf(e) - 1)
+
+OsInit ==
+  /\ maps = {} /\ now = 0 /\ round = 1 /\ dirtyU = {} /\ cand = {} /\ t0set = FALSE /\ lastInuse = {}
+  /\ refusedU = {} /\ prevQ = <<0, 0>> /\ oscfg = [shim |-> FALSE, purge_delay |-> 10, segmap_part |-> 0]
+  /\ ostep = 0
+
+\* ---- interval bookkeeping
+MaxA(a, b) == IF LtA(a, b) THEN b ELSE a
+MinA(a, b) == IF LtA(a, b) THEN a ELSE b
+Overlaps(s, a, e) == ~DisjointR(s.a, s.e, a, e)
+Remnants(s, a, e) == (IF LtA(s.a, a) THEN {[s EXCEPT !.e = a]} ELSE {}) \cup (IF LtA(e, s.e) THEN {[s EXCEPT !.a = e]} ELSE {})
+Cut(S, a, e) == UNION {IF Overlaps(s, a, e) THEN Remnants(s, a, e) ELSE {s} : s \in S}
+Pieces(S, a, e) == {[s EXCEPT !.a = MaxA(s.a, a), !.e = MinA(s.e, e)] : s \in {x \in S : Overlaps(x, a, e)}}
+Mergeable(s1, s2) == s1.e = s2.a /\ s1.prot = s2.prot /\ s1.born = s2.born
+RECURSIVE Coalesce(_)
+Coalesce(S) ==
+  IF \E s1, s2 \in S : Mergeable(s1, s2)
+  THEN LET p == CHOOSE p \in S \X S : Mergeable(p[1], p[2])
+       IN Coalesce((S \ {p[1], p[2]}) \cup {[p[1] EXCEPT !.e = p[2].e]})
+  ELSE S
+
+MappedRW(a, e) == \E s \in maps : s.prot = "RW" /\ InsideR(a, e, s.a, s.e)
+PagesOf(s) == (s.e[1] - s.a[1]) * 256 + ((s.e[2] - s.a[2]) \div 4096)    \* may be negative in lo part; sums correctly
+MappedPages == LET RECURSIVE Sum(_)
+                   Sum(S) == IF S = {} THEN 0 ELSE LET s == CHOOSE x \in S : TRUE IN PagesOf(s) + Sum(S \ {s})
+               IN Sum(maps)
+
+\* ---- hooks called from the API actions (ApiTrace passes the live set explicitly)
+\* destructive OS event over [a,e) must not touch a live block
+AvoidsLive(L, a, e) == \A b \in DOMAIN L : DisjointR(a, e, L[b].a, L[b].e)
+
+\* an allocating call returned block [a, a+us) of which the program wrote the first wr bytes
+OsBlockReturned(a, us, wr) ==
+  LET e == AddA(a, us) cov == UnitsCovering(a, AddA(a, wr)) IN
+  /\ ostep' = ostep + 1
+  /\ (oscfg.shim => OG("LiveAccessible", a, MappedRW(a, e)))
+  /\ dirtyU' = IF oscfg.shim THEN dirtyU \cup cov ELSE dirtyU
+  /\ cand' = cand \ UnitsCovering(a, e)
+  /\ UNCHANGED <<maps, now, round, t0set, lastInuse, refusedU, prevQ, oscfg>>
+
+OsWrite(a, wr) ==
+  /\ ostep' = ostep + 1
+  /\ dirtyU' = IF oscfg.shim THEN dirtyU \cup UnitsCovering(a, AddA(a, wr)) ELSE dirtyU
+  /\ UNCHANGED <<maps, now, round, cand, t0set, lastInuse, refusedU, prevQ, oscfg>>
+
+\* ---- OS events
+Destructive(ev) == ev.call = "munmap" \/ (ev.call = "madvise" /\ ev.arg \in {"DONTNEED", "FREE"})
+                   \/ (ev.call = "mprotect" /\ ev.arg = "NONE") \/ (ev.call = "mmap" /\ ev.fixed)
+
+OsEvent(ev, L) ==
+  LET a == ev.a  e == AddP(ev.a, ev.len) IN
+  /\ ostep' = ostep + 1
+  /\ UNCHANGED <<now, round, t0set, lastInuse, prevQ, oscfg>>
+  /\ IF ~ev.ok
+     THEN \* refused by the (simulated) operating system: nothing changes; remember refused give-backs
+          /\ refusedU' = IF Destructive(ev) THEN refusedU \cup UnitsCovering(a, e) ELSE refusedU
+          /\ UNCHANGED <<maps, dirtyU, cand>>
+     ELSE /\ UNCHANGED refusedU
+          /\ (Destructive(ev) => OG("DestructiveAvoidsLive", ev.call, AvoidsLive(L, a, e)))
+          /\ ((oscfg.purge_delay = -1 /\ ((ev.call = "madvise" /\ ev.arg \in {"DONTNEED", "FREE"}) \/ (ev.call = "mprotect" /\ ev.arg = "NONE")))
+                => OG("NeverPurgesWhenDisabled", ev.call, UnitsInside(a, e) \cap dirtyU = {}))
+          /\ dirtyU' = IF Destructive(ev) THEN dirtyU \ UnitsInside(a, e) ELSE dirtyU
+          /\ cand' = IF Destructive(ev) THEN cand \ UnitsInside(a, e) ELSE cand
+          /\ CASE ev.call = "mmap" ->
+                    /\ (~ev.fixed => OG("MmapFresh", a, \A s \in maps : ~Overlaps(s, a, e)))
+                    /\ maps' = Coalesce(Cut(maps, a, e) \cup {[a |-> a, e |-> e, prot |-> ev.arg, born |-> round]})
+               [] ev.call = "munmap" -> maps' = Cut(maps, a, e)
+               [] ev.call = "mprotect" -> maps' = Coalesce(Cut(maps, a, e) \cup {[x EXCEPT !.prot = ev.arg] : x \in Pieces(maps, a, e)})
+               [] OTHER -> UNCHANGED maps
+
+OsClock(ev) == /\ now' = ev.now /\ ostep' = ostep + 1
+               /\ UNCHANGED <<maps, round, dirtyU, cand, t0set, lastInuse, refusedU, prevQ, oscfg>>
+
+OsCfg(ev) == /\ oscfg' = [shim |-> ev.shim, purge_delay |-> ev.purge_delay, segmap_part |-> ev.segmap_part]
+             /\ ostep' = ostep + 1
+             /\ UNCHANGED <<maps, now, round, dirtyU, cand, t0set, lastInuse, refusedU, prevQ>>
+
+\* units covered by a list of areas <<hi, lo, lenhi, lenlo>> and by the live blocks
+AreaUnits(areas, L) ==
+  UNION {UnitsCovering(<<areas[i][1], areas[i][2]>>, AddP(<<areas[i][1], areas[i][2]>>, <<areas[i][3], areas[i][4]>>)) : i \in 1..Len(areas)}
+  \cup UNION {UnitsCovering(L[b].a, L[b].e) : b \in DOMAIN L}
+
+\* snapshot of the page areas of all heaps after an API call (C18)
+OsAreas(ev, L) ==
+  LET cur == AreaUnits(ev.areas, L) IN
+  /\ ostep' = ostep + 1
+  /\ (oscfg.purge_delay = 0 =>
+        OG("ImmediateWhenZero", Cardinality((lastInuse \cap dirtyU) \ cur), (lastInuse \cap dirtyU) \subseteq (cur \cup refusedU)))
+  /\ lastInuse' = cur \cap dirtyU
+  /\ cand' = cand \ cur
+  /\ UNCHANGED <<maps, now, round, dirtyU, t0set, refusedU, prevQ, oscfg>>
+
+\* marks: "t0" (the free phase is over; everything dirty and unused from now on is a candidate), "c18check"
+OsMark(ev, L) ==
+  /\ ostep' = ostep + 1
+  /\ CASE ev.what = "t0" ->
+            /\ cand' = dirtyU \ AreaUnits(ev.areas, L)
+            /\ t0set' = TRUE
+            /\ UNCHANGED <<maps, now, round, dirtyU, lastInuse, refusedU, prevQ, oscfg>>
+       [] ev.what = "c18check" ->
+            /\ ((t0set /\ oscfg.purge_delay > 0) =>
+                  OG("TimelyPurge", Cardinality((cand \cap dirtyU) \ refusedU), (cand \cap dirtyU) \subseteq refusedU))
+            /\ UNCHANGED <<maps, now, round, dirtyU, cand, t0set, lastInuse, refusedU, prevQ, oscfg>>
+       [] OTHER -> UNCHANGED <<maps, now, round, dirtyU, cand, t0set, lastInuse, refusedU, prevQ, oscfg>>
+
+\* C11: everything has been freed, threads are done, the main thread force-collected
+InArenas(s, arenasL) == \E i \in 1..Len(arenasL) :
+   LET aa == <<arenasL[i][1], arenasL[i][2]>> IN InsideR(s.a, s.e, aa, AddP(aa, <<arenasL[i][3], arenasL[i][4]>>))
+IsTable(s) == oscfg.segmap_part > 0 /\ PagesOf(s) * 4096 = oscfg.segmap_part
+Refused(s) == UnitsCovering(s.a, s.e) \cap refusedU # {}
+OsQuiesce(ev, L) ==
+  LET mp == MappedPages
+      left == {s \in maps : s.born >= 2 /\ ~InArenas(s, ev.arenas) /\ ~IsTable(s) /\ ~Refused(s)}
+  IN
+  /\ ostep' = ostep + 1
+  /\ OG("QuiesceNoLive", Cardinality(DOMAIN L), DOMAIN L = {})
+  /\ (ev.round >= 2 => OG("AllReleased", IF left = {} THEN <<>> ELSE (CHOOSE s \in left : TRUE), left = {}))
+  /\ (oscfg.purge_delay >= 0 => OG("DirtyAllReleased", Cardinality(dirtyU \ refusedU), dirtyU \subseteq refusedU))
+  /\ ((ev.round >= 3 /\ refusedU = {}) => OG("NoCreepMapped", <<prevQ[1], mp>>, mp <= prevQ[1]))
+  /\ ((ev.round >= 3 /\ refusedU = {}) => OG("NoCreepResident", <<prevQ[2], ev.resident>>, ev.resident <= prevQ[2] + ev.tol))
+  /\ prevQ' = <<mp, ev.resident>>
+  /\ round' = ev.round + 1
+  /\ UNCHANGED <<maps, now, dirtyU, cand, t0set, lastInuse, refusedU, oscfg>>
+
+OsReset ==
+  /\ maps' = {} /\ now' = 0 /\ round' = 1 /\ dirtyU' = {} /\ cand' = {} /\ t0set' = FALSE /\ lastInuse' = {}
+  /\ refusedU' = {} /\ prevQ' = <<0, 0>> /\ ostep' = ostep + 1 /\ UNCHANGED oscfg
+
+OsSkip == ostep' = ostep + 1 /\ UNCHANGED <<maps, now, round, dirtyU, cand, t0set, lastInuse, refusedU, prevQ, oscfg>>
+
+\* ---- invariants of the reconstructed OS state
+MapsDisjoint == \A s1, s2 \in maps : s1 # s2 => DisjointR(s1.a, s1.e, s2.a, s2.e)
 =============================================================================
